@@ -13,7 +13,8 @@ package main
 //
 // Input ($VERIF_IN), one case per line:
 //   fsm <id> <variant> <proto 0|1> <sink M|F> L <entry>* S <step>*
-//   entry = <idx>:<kind c|i|m>:<ts ns>:<exp ns|->:<rev>:<hex of payload spec>
+//   <sink> = M | F, optionally followed by @<robust.MessageOffset>
+//   entry = <idx>:<kind c|i|m>:<ts ns>:<exp ns|->:<rev>:<hex of payload spec>[:<explicit message id>]
 //           rev = robust.Message.Revision of a Config entry (applyRobustMessage skips it unless rev = revision in force + 1)
 //           kind c = command, i = raft-internal (LogNoop), m = command already tagged MessageOfDeath
 //           payload spec: "C" CreateSession | "D<sid> <quitmsg>" | "I<sid> <irc line>" | "G<duration>"
@@ -65,8 +66,18 @@ type vfEntry struct {
 	ts   int64
 	exp  string
 	spec string
-	msg  robust.Message // as the API would propose it (Id unset)
+	msg  robust.Message // as the API would propose it (Id unset unless mid != 0)
 	log  *raft.Log
+	mid  uint64
+}
+
+// msgID is the id under which the output stream files the reply batch of the entry: the explicit message id if
+// the message carries one, otherwise robust.MessageOffset + raft index (robust.NewMessageFromBytes)
+func (e *vfEntry) msgID() robust.Id {
+	if e.mid != 0 {
+		return robust.Id{Id: e.mid}
+	}
+	return robust.Id{Id: robust.IdFromRaftIndex(e.idx)}
 }
 
 func vfEncode(m *robust.Message, useProto bool) []byte {
@@ -86,8 +97,15 @@ func vfEncode(m *robust.Message, useProto bool) []byte {
 
 func vfParseEntry(tok string, useProto bool) (*vfEntry, error) {
 	f := strings.Split(tok, ":")
-	if len(f) != 6 || len(f[1]) != 1 {
+	if (len(f) != 6 && len(f) != 7) || len(f[1]) != 1 {
 		return nil, fmt.Errorf("bad entry %q", tok)
+	}
+	var mid uint64 // explicit robust.Message.Id.Id (legacy pre-#150 UNIX-nanosecond ids); 0 = absent, i.e. MessageOffset+index
+	if len(f) == 7 {
+		var err error
+		if mid, err = strconv.ParseUint(f[6], 10, 64); err != nil {
+			return nil, err
+		}
 	}
 	rev, err := strconv.ParseUint(f[4], 10, 64)
 	if err != nil {
@@ -105,7 +123,7 @@ func vfParseEntry(tok string, useProto bool) (*vfEntry, error) {
 	if err != nil {
 		return nil, err
 	}
-	e := &vfEntry{idx: idx, kind: f[1][0], ts: ts, exp: f[3], spec: string(specb)}
+	e := &vfEntry{idx: idx, kind: f[1][0], ts: ts, exp: f[3], spec: string(specb), mid: mid}
 	if e.kind == 'i' {
 		e.log = &raft.Log{Type: raft.LogNoop, Index: idx, Term: 1}
 		return e, nil
@@ -186,6 +204,9 @@ func vfParseEntry(tok string, useProto bool) (*vfEntry, error) {
 	}
 	if e.kind == 'm' {
 		m.Type = robust.MessageOfDeath
+	}
+	if mid != 0 {
+		m.Id = robust.Id{Id: mid}
 	}
 	e.msg = m
 	e.log = &raft.Log{Type: raft.LogCommand, Index: idx, Term: 1, Data: vfEncode(&m, useProto)}
@@ -666,7 +687,7 @@ func (w *vfWorld) dump() string {
 	it.Release()
 	var outs, douts []string
 	for _, e := range w.entries {
-		if msgs, ok := outputStream.Get(robust.Id{Id: e.idx}); ok {
+		if msgs, ok := outputStream.Get(e.msgID()); ok {
 			outs = append(outs, strconv.FormatUint(e.idx, 10)+"="+vfBatchDigest(msgs, e.idx))
 			if vfFullDumps {
 				douts = append(douts, strconv.FormatUint(e.idx, 10)+"="+hex.EncodeToString([]byte(vfBatchText(msgs, e.idx))))
@@ -751,7 +772,7 @@ func vfReplay(dir string, toks []vfTok) (states []string, outs []string, srv *ir
 		if seen[t.e.idx] {
 			// the same index applied twice (only in query sequences): the batch of the earlier
 			// application must not be mistaken for this one's
-			o.Delete(robust.Id{Id: t.e.idx})
+			o.Delete(t.e.msgID())
 		}
 		seen[t.e.idx] = true
 		m := robust.NewMessageFromBytes(t.e.log.Data, robust.IdFromRaftIndex(t.e.idx))
@@ -766,7 +787,7 @@ func vfReplay(dir string, toks []vfTok) (states []string, outs []string, srv *ir
 			vfLastReplayDumps = append(vfLastReplayDumps, vfDumpHex(srv))
 		}
 		states = append(states, vfServerDigest(srv))
-		if msgs, ok := o.Get(robust.Id{Id: t.e.idx}); ok {
+		if msgs, ok := o.Get(t.e.msgID()); ok {
 			if vfFullDumps {
 				vfLastReplayOuts[t.e.idx] = hex.EncodeToString([]byte(vfBatchText(msgs, t.e.idx)))
 			}
@@ -813,7 +834,13 @@ func vfRunCase(line string, base string, n int) (res string) {
 	}
 	id := f[1]
 	useProto := f[3] == "1"
-	fileSink := f[4] == "F"
+	fileSink := strings.HasPrefix(f[4], "F")
+	// <sink>@<n>: robust.MessageOffset = n for this case (ids of messages without explicit id are n + raft index)
+	robust.MessageOffset = 0
+	if k := strings.Index(f[4], "@"); k >= 0 {
+		robust.MessageOffset, _ = strconv.ParseUint(f[4][k+1:], 10, 64)
+	}
+	defer func() { robust.MessageOffset = 0 }()
 	var out []string
 	out = append(out, "fsm "+id)
 	defer func() {
